@@ -77,6 +77,10 @@ def _pool(kind, n_min=1, n_max=8):
 def _coefs(kind, mode):
     if mode == "float":
         return gen.FLOAT_COEFS
+    if mode == "tiny":
+        return gen.TINY_COEFS
+    if mode == "huge":
+        return gen.HUGE_COEFS
     if mode == "stale":
         return st.one_of(gen.DYADIC_COEFS, gen.INT_COEFS)
     base = st.one_of(gen.DYADIC_COEFS, gen.MIXED_COEFS)
@@ -120,7 +124,7 @@ def _add_cancel(terms, picks):
 
 
 _KIND = st.sampled_from(KINDS)
-_MODE = st.sampled_from(["dyadic", "dyadic", "dyadic", "float"])
+_MODE = st.sampled_from(["dyadic", "dyadic", "dyadic", "float", "dyadic", "dyadic", "tiny", "huge"])
 _BUILD = st.sampled_from(["iadd", "init"])
 _PICKS = st.one_of(st.just([]), st.just([]), st.lists(st.integers(0, 20), min_size=1, max_size=3))
 _POOLS = {k: _pool(k) for k in KINDS}
